@@ -10,7 +10,7 @@ use super::common::*;
 use crate::adapter::Blob;
 use crate::api::Api;
 use crate::flow::{self, o, Params};
-use crate::fw::{self, Cx, Report, Tier};
+use crate::fw::{self, Cx, Report, Tier, Totals};
 use crate::refmodel::Kind;
 use crate::tape::Tape;
 use serde_json::json;
@@ -254,7 +254,62 @@ pub fn run(tier: Tier, seed: u64) -> i32 {
             items.push((api, s));
         }
     }
-    let tot = fw::run_items("C17", &items, |(a, _)| a.name().to_string(), |(api, s), cx| explore(api, *s, tier, seed, cx));
+    // Sequential prelude, one thread, nothing else running: every operation twice back to back on identical tapes,
+    // then once more after other operations ran in between.  Process-wide hidden state (a static, a cache, a counter)
+    // shows here deterministically; the parallel exploration below could otherwise see it only by luck of scheduling.
+    let pool1 = rayon::ThreadPoolBuilder::new().num_threads(1).build().expect("pool");
+    let apis = all_apis();
+    let one = vec![0usize];
+    let mut tot = pool1.install(|| {
+        fw::run_items("C17", &one, |_| "all-suites(sequential)".to_string(), |_, cx| {
+            for api in &apis {
+                let p = setting(0);
+                let fx = (|| -> Result<Fixture, String> {
+                    let mut t = Tape::seeded(seed, "c17/seq/fixture");
+                    let setup = api.setup(&mut t).map_err(|e| format!("{:?}", e))?;
+                    let reg = flow::register(api, &mut t, &setup, &p.pw, &p.cid, o(&p.idu), o(&p.ids), None).map_err(|e| format!("{} {:?}", e.step, e.e))?;
+                    let (ke1, _) = api.login_start(&mut t, &p.pw).map_err(|e| format!("{:?}", e))?;
+                    let sk = api.spec.field(Kind::Setup, "fake_sk").of(&setup).to_vec();
+                    Ok(Fixture { p: p.clone(), setup, sk, reg, ke1 })
+                })();
+                let fx = match fx {
+                    Ok(f) => f,
+                    Err(e) => {
+                        cx.violate_case("honest-step/error", e, json!({"suite": api.name()}));
+                        continue;
+                    }
+                };
+                let mut firsts = vec![];
+                for op in OPS {
+                    let label = format!("seed{}/c17/seq/{}", seed, op);
+                    cx.begin_case(json!({"suite": api.name(), "op": op, "check": "same operation twice back to back on identical tapes, single thread"}));
+                    cx.state(&(api.name(), op, "seq"));
+                    cx.edges += 2;
+                    cx.path();
+                    let a = run_op(api, &fx, op, &mut Tape::new(&label));
+                    let b = run_op(api, &fx, op, &mut Tape::new(&label));
+                    match (&a, &b) {
+                        (Ok(x), Ok(y)) if x.1 == y.1 && x.2 == y.2 => cx.outcome("deterministic-back-to-back"),
+                        (Ok(_), Ok(_)) => cx.violate(&format!("{}/hidden-state", op), format!("{} run twice back to back on identical tapes (single thread) gives different outputs: hidden state between calls", op)),
+                        _ => cx.violate(&format!("{}/error", op), "operation fails".into()),
+                    }
+                    firsts.push((op, label, a));
+                }
+                // and again after all the other operations ran in between
+                for (op, label, a) in firsts {
+                    cx.begin_case(json!({"suite": api.name(), "op": op, "check": "same operation again after other operations, identical tape"}));
+                    cx.edges += 1;
+                    let c = run_op(api, &fx, op, &mut Tape::new(&label));
+                    match (&a, &c) {
+                        (Ok(x), Ok(y)) if x.1 == y.1 && x.2 == y.2 => cx.outcome("deterministic-across-history"),
+                        (Ok(_), Ok(_)) => cx.violate(&format!("{}/history-dependent", op), format!("{} on an identical tape gives a different output after other operations ran: hidden state", op)),
+                        _ => {}
+                    }
+                }
+            }
+        })
+    });
+    tot.merge(fw::run_items("C17", &items, |(a, _)| a.name().to_string(), |(api, s), cx| explore(api, *s, tier, seed, cx)));
     let rep = Report {
         property: "C17",
         tier,
